@@ -102,7 +102,7 @@ fn encoder_twin(rng: &mut Rng, out: &mut CaseOut) {
     let mut count = 0usize;
     let mut failures = 0usize;
     let mut completed_after_failure = 0usize;
-    let steps = rng.range(8, 40);
+    let steps = rng.range(8, if crate::thorough() { 160 } else { 40 });
     for _ in 0..steps {
         // choose an operation; roughly a third are meant to fail
         let (op, name): (EncOp, String) = match rng.below(12) {
@@ -278,7 +278,7 @@ fn decoder_twin(rng: &mut Rng, out: &mut CaseOut) {
     };
     let mut failures = 0usize;
     let mut completed_after_failure = 0usize;
-    let steps = rng.range(8, 50);
+    let steps = rng.range(8, if crate::thorough() { 200 } else { 50 });
     let base = cur.0.next_power_of_two().max(cur.1.next_power_of_two());
     for _ in 0..steps {
         let (k, r, size) = cur;
